@@ -207,6 +207,7 @@ def check(run):
         run.holds("F-CACHE/face-areas", c, where(fa, call), "cached face_areas come from compute_face_areas() with all-default arguments")
     else:
         run.violation("F-CACHE/face-areas", c, where(fa, call), f"cached face_areas are computed by {norm(call)}: they differ from a fresh default computation")
+    _who_stores_face_areas(run, P)
     # the value stored as face_areas is, on every path, the first result of THAT all-default call (not an attribute another call may have written)
     c = "Grid.face_areas:stored-value-from-default-call"
     bad = None
@@ -438,3 +439,62 @@ def _point_equalities(run, P):
                 else:
                     run.violation("F-GUARD/corner-equality", c0, where(f, t), f"two corners are declared identical by comparing {sorted(vars_)} only: corners (x, y, z) and (x, y, -z) coincide for this test, so a face loses a sub-triangle on the Cartesian path")
     run.stats["corner_equality_tests"] = n
+
+
+# who may store face_areas (frozen from the pinned tree, each confirmed by reading): the getter/setter pair of Grid and the MPAS reader, whose areaCell the MPAS
+# specification defines on the sphere the mesh itself lives on.
+FACE_AREA_WRITERS = {
+    "uxarray/grid/grid.py:Grid.face_areas": "the lazy getter (default computation) and its setter",
+    "uxarray/io/_mpas.py:_parse_face_areas": "areaCell / areaTriangle of the MPAS mesh specification",
+}
+
+
+def _who_stores_face_areas(run, P):
+    """`face_areas` is what Grid.face_areas hands out without computing: a store of that variable anywhere else bypasses the quadrature.  A reader that copies an area
+    variable of its format there makes the grid report the file's numbers - in the file's unit and for the file's sphere radius (ESMF elementArea, SCRIP grid_area are
+    in whatever the generating tool used) - so `face_areas` and `compute_face_areas()` disagree."""
+    from ..astutil import LocalDefs
+    n = 0
+    for f in P.all_functions():
+        if not f.module.relpath.startswith("uxarray/"):
+            continue
+        stores = [st for st in ast.walk(f.node) if isinstance(st, ast.Assign) and isinstance(st.targets[0], ast.Subscript) and str_const(st.targets[0].slice) == "face_areas"]
+        if not stores:
+            continue
+        key = f.key if f.key in FACE_AREA_WRITERS else next((k for k in FACE_AREA_WRITERS if f.key.startswith(k)), None)
+        for st in stores:
+            n += 1
+            c = f"{f.key}:store[face_areas]"
+            if key is not None:
+                run.holds("F-TABLE/face-area-writers", c, where(f, st), FACE_AREA_WRITERS[key])
+                if f.module.relpath.endswith("io/_mpas.py"):
+                    # areaCell / areaTriangle belong to the sphere of radius `sphere_radius` (global attribute): unit-sphere areas need the division by its square
+                    defs_ = LocalDefs(f.node)
+                    nodes_, _ = defs_.closure(st.value)
+                    divs = [x for e in nodes_ for x in ast.walk(e) if isinstance(x, ast.BinOp) and isinstance(x.op, ast.Div)]
+                    divs += [ast.BinOp(left=a.target, op=ast.Div(), right=a.value) for a in ast.walk(f.node) if isinstance(a, ast.AugAssign) and isinstance(a.op, ast.Div)]
+                    ok_ = False
+                    for d_ in divs:
+                        den, _n = defs_.closure(d_.right)
+                        mentions = any(isinstance(x, ast.Constant) and x.value == "sphere_radius" for e in den for x in ast.walk(e)) or any(isinstance(x, ast.Attribute) and x.attr == "sphere_radius" for e in den for x in ast.walk(e))
+                        squared = any((isinstance(x, ast.BinOp) and isinstance(x.op, ast.Pow) and isinstance(x.right, ast.Constant) and x.right.value == 2) or
+                                      (isinstance(x, ast.BinOp) and isinstance(x.op, ast.Mult) and norm(x.left) == norm(x.right)) or
+                                      (isinstance(x, ast.Call) and (dotted(x.func) or [""])[-1] in ("square",)) for e in [d_.right] + den for x in ast.walk(e))
+                        if mentions and squared:
+                            ok_ = True
+                    c2 = f"{f.key}:store[face_areas]:unit-sphere"
+                    if ok_:
+                        run.holds("F-UNIT/mpas-area-radius", c2, where(f, st), "file areas divided by sphere_radius**2")
+                    else:
+                        run.violation("F-UNIT/mpas-area-radius", c2, where(f, st), "the MPAS areas (areaCell / areaTriangle) are stored as face_areas without the division by sphere_radius**2: for a mesh whose "
+                                      "sphere_radius is not 1 Grid.face_areas are not unit-sphere areas and differ from compute_face_areas() by that factor")
+                continue
+            nodes, _ = LocalDefs(f.node).closure(st.value)
+            src = [x for e in nodes for x in ast.walk(e) if isinstance(x, ast.Subscript) and isinstance(x.value, ast.Name) and x.value.id in ("in_ds", "ext_ds", "ds", "dataset", "grid_ds") and str_const(x.slice)]
+            if src:
+                run.violation("F-TABLE/face-area-writers", c, where(f, st), f"{f.name} stores the file's `{str_const(src[0].slice)}` as face_areas: Grid.face_areas then reports the file's numbers (its unit, its sphere radius) "
+                              "while compute_face_areas() integrates on the unit sphere")
+            else:
+                run.incomplete("F-TABLE/face-area-writers", c, where(f, st), f"{f.name} stores face_areas; it is not one of the writers confirmed for the pinned tree ({sorted(FACE_AREA_WRITERS)})")
+    run.floor("F-TABLE/face-area-writers", n, 2)
+
